@@ -7,7 +7,8 @@
 EXTENDS IDStar, Families, Json
 
 CONSTANTS Family, RndN, RndK, Seeds, MaxAtoms, Slice,   \* Slice: keep every Slice-th two-atom event
-          Check                                          \* FALSE: generator only (no semantic comparison)
+          Check,                                         \* FALSE: generator only (no semantic comparison)
+          Mode                                           \* "star": ID* on events; "cstar": IDC* on (outcome | condition)
 VARIABLES q, phase, res, cmp
 vars == <<q, phase, res, cmp>>
 
@@ -18,14 +19,28 @@ Events(V) == LET A == AtomsOn(V, 2, FALSE)
                                                                     /\ (AtomCode(pp[1]) + 7 * AtomCode(pp[2])) % Slice = 0}}
                        ELSE {}
              IN e1 \cup e2
-Init == /\ q \in {[g |-> G, ev |-> e] : G \in GraphFamily(Family, RndN, RndK), e \in Events(1..3)}
+\* conditional queries: every two-atom event of the slice split both ways, and every three-atom extension of a sub-slice
+CondQueries(V) ==
+  LET A == AtomsOn(V, 2, FALSE)
+      e2 == {e \in Events(V) : Cardinality(e) = 2}
+      two == UNION {{[gam |-> {a}, del |-> e \ {a}] : a \in e} : e \in e2}
+      three == IF MaxAtoms >= 3
+               THEN UNION {UNION {{[gam |-> {a}, del |-> e], [gam |-> e, del |-> {a}]} :
+                                   a \in {x \in A : KeyOf(x) \notin {KeyOf(b) : b \in e} /\ (AtomCode(x) % 5) = 0}} :
+                           e \in {f \in e2 : \E p \in f : (AtomCode(p) % 3) = 0}}
+               ELSE {}
+  IN two \cup three
+Init == /\ q \in (IF Mode = "star"
+                  THEN {[g |-> G, ev |-> e] : G \in GraphFamily(Family, RndN, RndK), e \in Events(1..3)}
+                  ELSE {[g |-> G, ev |-> c.gam, cond |-> c.del] : G \in GraphFamily(Family, RndN, RndK), c \in CondQueries(1..3)})
         /\ phase = "chosen" /\ res = Fail /\ cmp = <<>>
 Run == /\ phase = "chosen" /\ phase' = "done" /\ q' = q
-       /\ LET r == IDStarRef(q.g, q.ev) IN
+       /\ LET r == IF Mode = "star" THEN IDStarRef(q.g, q.ev) ELSE IDCStarRef(q.g, q.ev, q.cond) IN
           /\ res' = r
-          /\ cmp' = IF IsFail(r) \/ ~Check THEN <<>>
+          /\ cmp' = IF IsFail(r) \/ IsUndef(r) \/ ~Check THEN <<>>
                     ELSE LET sd == SetToSeq(Seeds)
-                             tr == EventTerm(SetToSeqBy(q.ev), 0)
+                             tr == IF Mode = "star" THEN EventTerm(SetToSeqBy(q.ev), 0)
+                                   ELSE FT(EventTerm(SetToSeqBy(q.ev \cup q.cond), 0), EventTerm(SetToSeqBy(q.cond), 0))
                          IN [k \in DOMAIN sd |->
                               LET M == ModelF(q.g, EdgeLatents(q.g), Binary(q.g), NoTag(q.g), sd[k])
                                   W == Bundle([p \in {0} |-> M], Dos(r) \cup Dos(tr))
@@ -33,10 +48,19 @@ Run == /\ phase = "chosen" /\ phase' = "done" /\ q' = q
 Spec == Init /\ [][Run]_vars
 Done == phase = "done"
 
-Sound == (Done /\ Check /\ ~IsFail(res)) => \A k \in DOMAIN cmp : cmp[k].nbad = 0
+Sound == (Done /\ Check /\ ~IsFail(res) /\ ~IsUndef(res)) => \A k \in DOMAIN cmp : cmp[k].nbad = 0
+\* "undefined" is answered only when the condition is impossible in every model of the family
+UndefOnlyIfImpossible ==
+  (Done /\ Check /\ Mode = "cstar" /\ IsUndef(res)) =>
+     \A s \in Seeds : LET M == ModelF(q.g, EdgeLatents(q.g), Binary(q.g), NoTag(q.g), s)
+                          tr == EventTerm(SetToSeqBy(q.cond), 0)
+                          W == Bundle([p \in {0} |-> M], Dos(tr))
+                      IN CmpAt(W, tr, ZeroT).nbad = 0
 \* zero is returned only for impossible events is part of Sound (ZeroT compared with P(event)); single-world terms only
-Vocab == (Done /\ ~IsFail(res)) => SingleWorldOnly(res)
+Vocab == (Done /\ ~IsFail(res) /\ ~IsUndef(res)) => SingleWorldOnly(res)
+\* non-vacuity of line 4 (expected to FAIL as an invariant): some conditional query is answered by a term that is not a ratio
+Rule2NeverHelps == (Done /\ Mode = "cstar" /\ ~IsFail(res) /\ ~IsUndef(res)) => res.t \in {"F", "0", "1"}
 \* non-vacuity: the reference answers some events with two different worlds (expected to FAIL as an invariant)
-NeverAnswersTwoWorlds == (Done /\ Cardinality({WorldOfA(a) : a \in q.ev}) > 1) => (IsFail(res) \/ res.t \in {"0", "1"})
+NeverAnswersTwoWorlds == (Done /\ Mode = "star" /\ Cardinality({WorldOfA(a) : a \in q.ev}) > 1) => (IsFail(res) \/ res.t \in {"0", "1"})
 Emit == Done => PrintT(<<"IDS", ToJson([d |-> q.g.d, b |-> q.g.b, ev |-> SetToSeqBy(q.ev), ans |-> ~IsFail(res)])>>)
 =============================================================================
